@@ -15,6 +15,7 @@ import NurbsVerif.Lemmas.DecompE
 import NurbsVerif.Lemmas.KnotRangeFoldWitness
 import NurbsVerif.Lemmas.SpanBinEval
 import NurbsVerif.Lemmas.SpanREval
+import NurbsVerif.Model.SpanRGrid
 
 /-!
 # C17  Results do not depend on configuration choices
@@ -1025,6 +1026,27 @@ theorem volume_eval_binsearchR_selected (pu pv pw : ℕ) (Uu Uv Uw : ℕ → K) 
   ⟨_, _, _, Geomdl.findSpanBinR_eq_linearR pu Uu su u tol hUu.pn hUu.mono hu1 hu2 (le_of_lt htol) hendu,
     Geomdl.findSpanBinR_eq_linearR pv Uv sv v tol hUv.pn hUv.mono hv1 hv2 (le_of_lt htol) hendv,
     Geomdl.findSpanBinR_eq_linearR pw Uw sw w tol hUw.pn hUw.mono hw1 hw2 (le_of_lt htol) hendw, rfl⟩
+
+/-- **Derivatives with the repaired binary search selected** (closed domain of every valid knot vector, `DomOk`): the
+    derivative tables of every evaluator computed on the span(s) the selected binary search returns – A3.3/A3.4
+    (`curveDersAt`), A3.2 as coded (`curveDersA32`), the tensor-formula tables (`surfaceDersAt`), A3.6 as coded
+    (`surfaceDersA36`), A3.7 + A3.8 as coded (`surfaceDersA38`) – ARE the tables on the spans of the repaired linear
+    search (`curveDersR`, `curveDersA32R`, `surfaceDersR`, `surfaceDersA36R`, `surfaceDersA38R`), i.e. the tables C02's
+    `…_repaired_on_domain` theorems identify with the true (mixed) derivatives. -/
+theorem derivatives_binsearchR_selected (pu pv : ℕ) (Uu Uv : ℕ → K) (su sv : ℕ) (P : List (List K))
+    (hUu : DomOk pu Uu su) (hUv : DomOk pv Uv sv) (u v tol : K)
+    (hu1 : Uu pu ≤ u) (hu2 : u ≤ Uu su) (hv1 : Uv pv ≤ v) (hv2 : v ≤ Uv sv) (htol : 0 < tol) (htol2 : 2 * tol < 1)
+    (hendu : absK (Uu su - u) ≤ tol → Uu (findSpanLinearR pu Uu su (Uu su)) ≤ u)
+    (hendv : absK (Uv sv - v) ≤ tol → Uv (findSpanLinearR pv Uv sv (Uv sv)) ≤ v) (order : ℕ) :
+    ∃ ku kv, findSpanBinR pu Uu su u tol = some ku ∧ findSpanBinR pv Uv sv v tol = some kv ∧
+      (su = P.length → curveDersAt pu Uu P ku u order = curveDersR pu Uu P u order ∧
+        curveDersA32 pu Uu P ku u order = curveDersA32R pu Uu P u order) ∧
+      (∀ tri, surfaceDersAt pu pv Uu Uv sv P ku kv u v order tri = surfaceDersR pu pv Uu Uv su sv P u v order tri) ∧
+      surfaceDersA36 pu pv Uu Uv sv P ku kv u v order = surfaceDersA36R pu pv Uu Uv su sv P u v order ∧
+      surfaceDersA38 pu pv Uu Uv su sv P ku kv u v order = surfaceDersA38R pu pv Uu Uv su sv P u v order :=
+  ⟨_, _, Geomdl.findSpanBinR_eq_linearR pu Uu su u tol hUu.pn hUu.mono hu1 hu2 (le_of_lt htol) hendu,
+    Geomdl.findSpanBinR_eq_linearR pv Uv sv v tol hUv.pn hUv.mono hv1 hv2 (le_of_lt htol) hendv,
+    fun h => by subst h; exact ⟨rfl, rfl⟩, fun _ => rfl, rfl, rfl⟩
 
 /-- non-vacuity, on the audit's witness: `U = [0,0,1,2,4,4,5,5]`, degree 2, five control points, `u = 4 = U_n` (EMPTY last
     span), `tol = 10⁻⁵`: the repaired binary search returns span 3 and the point is the repaired evaluation `(3, 1)` -/
